@@ -157,6 +157,11 @@ def spell(rng, D, e10, style=None):
     elif style == 'lead0':
         z = rng.choice([1, 2, 5, 19, 20, 25, 40])
         s = '0.' + '0' * z + D + exp_text(rng, e10 + n + z)
+    elif style == 'padint':
+        # the digits, then zeros, all in the INTEGER part, compensated by the exponent: reaches / passes lexical's digit limit with zeros only (finding F21)
+        tot = rng.choice([112, 113, 114, 115, 120, 767, 768, 769, 770, 800])
+        z = max(1, tot - n)
+        s = D + '0' * z + rng.choice(['', '', '.0', '.000']) + exp_text(rng, e10 - z)
     else:  # trail0
         z = rng.choice([1, 3, 19, 25])
         j = rng.randrange(1, n + 1)
@@ -185,6 +190,11 @@ def midpoint_variants(rng, fmt, bits, which=None):
          ('mid-cut17', D[:17] if n > 17 else D + '0', None),
          ('mid-cut17+1', str(int(D[:17]) + 1) if n > 17 else D + '01', None),
          ('mid-cut20', D[:rng.randrange(19, 41)] if n > 41 else D + '000000000000000000001', None)]
+    c = rng.randrange(19, 27)
+    if n > c:
+        V.append(('mid-cut%d+1' % c, str(int(D[:c]) + 1), None))
+        V.append(('mid-cut19-999', D[:19] + '9' * rng.randrange(1, 8), None))
+    V.append(('mid-padint', D if n < lim else D[:40], 'pad'))
     for tot in (lim - 1, lim, lim + 1, lim + 2, lim + 40):
         if tot > n:
             V.append(('mid-zeros1@%d' % (tot - lim), D + '0' * (tot - n - 1) + '1', None))
@@ -192,14 +202,18 @@ def midpoint_variants(rng, fmt, bits, which=None):
     V.append(('mid-below9-long', str(int(D) - 1) + '9' * max(2, lim + 2 - n), None))
     out = []
     for name, D2, e2 in V:
-        if e2 is None:
+        if e2 is None or e2 == 'pad':
             e2 = e + n - len(D2)         # same leading position as D
         out.append((name, D2, e2))
     if which is not None:
         out = [out[i % len(out)] for i in which]
     return out
 
-HARD64 = [b'2.2250738585072011e-308', b'2.2250738585072012e-308', b'2.2250738585072014e-308', b'2.2250738585072009e-308',
+F21_64 = b'9007199254740993' + b'0' * 753 + b'e-753'      # 769 integer digits, an exact tie: must round to even (fixed finding F21)
+F21_32 = b'16777217' + b'0' * 106 + b'e-106'
+HARD64 = [F21_64, b'9007199254740993' + b'0' * 753 + b'.0e-753', b'9007199254740993' + b'0' * 752 + b'e-752', b'9007199254740995' + b'0' * 760 + b'e-760',
+          b'2295968209859975540999e-233', b'2.295968209859975540999e-212', b'226424503914030395399999e-235',     # fixed finding F22 (truncated mantissa, moderate path)
+          b'2.2250738585072011e-308', b'2.2250738585072012e-308', b'2.2250738585072014e-308', b'2.2250738585072009e-308',
           b'4.9406564584124654e-324', b'4.9e-324', b'5e-324', b'2.4703282292062327e-324', b'2.4703282292062328e-324', b'2.47e-324', b'3e-324',
           b'1.7976931348623157e308', b'1.7976931348623158e308', b'1.7976931348623159e308', b'1.797693134862315807e308', b'1.797693134862315708e308',
           b'1.8e308', b'1e308', b'1e309', b'17976931348623157e292', b'179769313486231580793728971405303415079934132710037826936173778980444968292764750946649017977587207096330286416692887910946555547851940402630657488671505820681908902000708383676273854845817711531764475730270069855571366959622842914819860834936475292719074168444365510704342711559699508093042880177904174497791',
@@ -252,6 +266,9 @@ def family_f64(ctx, scale):
                 vs = rng.sample(vs, 3) + vs[:1]
             for name, D, e in vs:
                 long = len(D) > 300
+                if name == 'mid-padint':
+                    yield name, spell(rng, D, e, 'padint')
+                    continue
                 yield name, spell(rng, D, e, rng.choice(['sci', 'intexp', 'shift'] + ([] if long else ['plain', 'lead0', 'trail0'])))
     for name, D, e in midpoint_variants(rng, F64, 0) + midpoint_variants(rng, F64, 1) + midpoint_variants(rng, F64, F64.inf - 1) \
             + midpoint_variants(rng, F64, (1 << 52) - 1) + midpoint_variants(rng, F64, 1 << 52):
@@ -324,7 +341,7 @@ def F64_bits(M, k):
         return M
     return ((k + 1075) << 52) | (M - (1 << 52))
 
-HARD32 = [b'3.4028235e38', b'3.4028236e38', b'3.4028235677973366e38', b'3.40282356779733661637539395458142568447e38', b'3.40282356779733661637539395458142568448e38',
+HARD32 = [F21_32, b'16777217' + b'0' * 120 + b'e-120', b'16777219' + b'0' * 106 + b'e-106', b'3.4028235e38', b'3.4028236e38', b'3.4028235677973366e38', b'3.40282356779733661637539395458142568447e38', b'3.40282356779733661637539395458142568448e38',
           b'3.4028235677973367e38', b'340282346638528859811704183484516925440', b'340282356779733661637539395458142568447', b'340282356779733661637539395458142568448',
           b'1e39', b'1e38', b'1.4e-45', b'7e-46', b'7.0064923216240853546186479164495806564013097093825788587853914e-46', b'7.0064923216240853546186479164495806564013097093825788587853915e-46',
           b'7.0064923216240853546186479164495806564013097093825788587853913e-46', b'1.17549435e-38', b'1.1754942e-38', b'1.1754943e-38', b'1.1754944e-38',
@@ -357,7 +374,7 @@ def family_f32(ctx, scale):
         for f in [0, (1 << 23) - 1] + [rng.randrange(1 << 23) for _ in range(per_exp)]:
             bits = (E << 23) | f
             for name, D, e in midpoint_variants(rng, F32, bits):
-                yield 'f32-' + name, spell(rng, D, e)
+                yield 'f32-' + name, spell(rng, D, e, 'padint' if name == 'mid-padint' else None)
     for l in HARD32:
         yield 'f32-hard', l
         yield 'f32-hard', b'-' + l
